@@ -223,13 +223,17 @@ PROPS["C15"] = dict(
     explanation="(a) Operation sequences (acquire(k) for k in 0..burst+1 with hold times, cancellation of pending acquires, clock advances of 1 ns / r-1 / r / many r) run on the real "
     "limiter::Limiter with a manual clock; every window between two grants is checked against burst + T/r + 1, grants against arrival order, k > burst never grants, "
     "refresh 0 grants immediately, every satisfiable caller is eventually served, and a phase of only-cancelled waits must leave the limiter granting exactly like one that "
-    "never saw them. A multi-thread stress variant checks the window bound with real time. (b) The per-connection half (RPC services over a scripted transport) is the network stage.",
+    "never saw them. A multi-thread stress variant checks the window bound with real time. (b) The real rpc::Service (ping server + consensus server with a generated rate, INFLIGHT 3; through the verif facade) runs over the scripted transport on a manual clock against "
+    "(i) the real client code with an infinite rate firing 5-40 calls at once and (ii) a raw mux peer written in the harness that re-opens every stream and sends a valid request as fast as the "
+    "wire allows without ever reading; a probe handler logs start/end in manual-clock time: starts in every window <= burst + T/r + 1, concurrently running handlers <= INFLIGHT (and the "
+    "limit is actually reached).",
     assumptions=["held on the generated operation sequences only", "the multi-thread variant stamps grants after the fact and allows 5 ms of stamping delay"],
     stages=[
         dict(name="limiter-native", flavour="release", **CONC),
         dict(name="limiter-miri", flavour="miri", args=_SMALL, shards=8, tiers=["thorough"], **CONC),
+        dict(name="rpc", flavour="release", crate="net"),
     ],
-    floors={"quick": {"windows_checked": 100000, "cancelled_waits_observed": 5000, "differential_cancel_cases": 2000, "fifo_sequences_checked": 2000, "oversized_requests_checked": 1000, "infinite_rate_requests_checked": 1000},
+    floors={"quick": {"windows_checked": 100000, "cancelled_waits_observed": 5000, "differential_cancel_cases": 2000, "fifo_sequences_checked": 2000, "oversized_requests_checked": 1000, "infinite_rate_requests_checked": 1000, "handler_invocations": 3000, "rpc_windows_checked": 50000, "rpc_raw_client_cases": 100, "max_concurrent_handlers": 3},
             "thorough": {"windows_checked": 1000000}},
 )
 
